@@ -40,7 +40,7 @@ CLAIMS = {
         ref="DESIGN.md §4 C07"),
     "C08": dict(
         tech="static analysis: must-pass-through and dominance on the CFG of the PyTree check (every leaf checked, reject on first failure, accept only after the loop), predicate identity flatten/check, rollback and flag typestates (ast + CFG)",
-        text="Decides the clauses of the property that are visible in the shape of the code: trivial acceptances first, flatten from the checked value with is_leaf = the very predicate that later checks each leaf, every leaf checked / first failure rejects / acceptance only after the loop, leaf predicate = full typeguard check false exactly on TypeError, no new binding context for leaves, rollback on rejection, flatten-mode flag around the flatten. Which containers jax treats as nodes and PyTree[L] == PyTree[PyTree[L]] are value-level and not decided.",
+        text="Decides the clauses of the property that are visible in the shape of the code: trivial acceptances first, flatten from the checked value with is_leaf = the very predicate that later checks each leaf, every leaf checked / first failure rejects / acceptance only after the loop, leaf predicate = full typeguard check false exactly on TypeError, no new binding context for leaves, rollback on rejection, flatten-mode flag around the flatten, every union kind jaxtyping recognises dispatched by the leaf predicate's check_type. Which containers jax treats as nodes and PyTree[L] == PyTree[PyTree[L]] are value-level and not decided.",
         ref="DESIGN.md §4 C08, §7"),
     "C09": dict(
         tech="static analysis: exception-translation discipline for unbound composite names, ValueError-only raise census and validation dominance in PyTree.__getitem__, bind-if-absent shape (ast + CFG)",
